@@ -72,11 +72,12 @@ theorem inv_withdraw (tok : String) (amount? : Option Rat) : Inv (Good cx env) (
     cases h : AList.get? s.supplies tok with
     | none => rw [h] at hq; cases hq
     | some i => rw [h] at hq; cases hq; rfl
-  dsimp only
+  refine InvTo.bind (R := Pin cx env s.supplies s.borrows) ?_ (fun _ => htail _ _) hid
+  unfold checkWithdrawHf
   split
-  · refine InvTo.bind_ofRes (fun d _ => ?_) hid
-    refine InvTo.bind (R := Pin cx env s.supplies s.borrows) (inv_trial hg _) (fun hf => ?_) hid
-    refine InvTo.bind_require (fun _ => htail _ _) hid
-  · exact htail _ _
+  · refine InvTo.bind_ofRes (fun d _ => ?_) (fun _ h => h)
+    refine InvTo.bind (R := Pin cx env s.supplies s.borrows) (inv_trial hg _) (fun hf => ?_) (fun _ h => h)
+    exact Inv.require _ _
+  · exact Inv.pure _
 
 end Demeter.Aave
